@@ -285,3 +285,55 @@ def render(tree):
                  ", ".join(str(nm[t]) for t in x["terminals"])))
     o.append("end JanetModel.Gen.VmAccess\n")
     return "\n".join(o)
+
+
+# ------------------------------------------------------------------------------------------------ image checks
+def image_checks(tree):
+    """Which validations the current marsh.c / vm.c perform on images (True/False each).  The functions themselves must be
+    recognisable (ExtractError otherwise); an individual check that is absent is reported as False, which makes the
+    full well-formedness theorems over Gen fail to check."""
+    src = csrc.strip_comments(csrc.read(tree, "src/core/marsh.c"))
+    fib = csrc.func_body(src, "unmarshal_one_fiber")
+    dfn = csrc.func_body(src, "unmarshal_one_def")
+    one = csrc.func_body(src, "unmarshal_one")
+    env = csrc.func_body(src, "unmarshal_one_env")
+    vm = csrc.strip_comments(csrc.read(tree, "src/core/vm.c"))
+    if "while (stack > 0)" not in fib or "case LB_FUNCTION" not in one:
+        raise ExtractError("marsh.c: fiber frame loop / function case not recognised")
+
+    def has(text, rx):
+        return bool(re.search(rx, text, re.S))
+    panic = r"\s*\)\s*\{\s*janet_panicf?\s*\("
+    c = {}
+    c["stackSetup"] = has(fib, r"if\s*\(\s*\(int32_t\)\s*\(frame \+ JANET_FRAME_SIZE\) > fiber_stackstart\s*\|\|\s*fiber_stackstart > fiber_stacktop\s*\|\|\s*fiber_stacktop > fiber_maxstack" + panic)
+    c["frameSize"] = has(fib, r"int32_t expected_framesize = def->slotcount;\s*if\s*\(\s*expected_framesize != stacktop - stack" + panic)
+    c["pcRange"] = has(fib, r"if\s*\(\s*pcdiff >= def->bytecode_length" + panic)
+    c["prevAlign"] = has(fib, r"if\s*\(\s*\(int32_t\)\s*\(prevframe \+ JANET_FRAME_SIZE\) > stack" + panic)
+    c["statusRange"] = has(fib, r"if\s*\(\s*status < 0 \|\| status > JANET_STATUS_ALIVE" + panic)
+    c["frame0"] = has(fib, r"if\s*\(\s*frame == 0 && status != JANET_STATUS_DEAD" + panic)
+    c["entrance"] = has(fib, r"if\s*\(\s*prevframe == 0 && !\(frameflags & JANET_STACKFRAME_ENTRANCE\)" + panic)
+    c["callPc"] = has(fib, r"if\s*\(\s*stack != frame && \(def->bytecode\[pcdiff\] & 0x7F\) != JOP_CALL" + panic)
+    c["resumeOperand"] = has(fib, r"!\(fiber_flags & JANET_FIBER_RESUME_NO_USEVAL\)\s*&&\s*\(int32_t\)\s*\(\(\*top->pc >> 8\) & 0xFF\) >= topdef->slotcount" + panic) and \
+        has(fib, r"!\(fiber_flags & JANET_FIBER_RESUME_NO_SKIP\)\s*&&\s*toppc \+ 1 >= topdef->bytecode_length" + panic)
+    c["fnEnvCount"] = has(one, r"if\s*\(\s*def->environments_length != len" + panic)
+    clo = re.search(r"VM_OP\(JOP_CLOSURE\)(.*?)(?=VM_OP\()", vm, re.S)
+    if not clo:
+        raise ExtractError("vm.c: JOP_CLOSURE handler not found")
+    vm_negative_ok = has(clo.group(1), r"if\s*\(\s*inherit < 0\s*\|\|\s*inherit >= func->def->environments_length\s*\)")
+    c["defEnvIndex"] = has(dfn, r"if\s*\(\s*inherit < -1" + panic) or vm_negative_ok
+    c["envNegOffset"] = has(env, r"env->offset = -offset;")
+    up = re.findall(r"VM_OP\(JOP_(?:LOAD|SET)_UPVALUE\)(.*?)(?=VM_OP\()", vm, re.S)
+    if len(up) != 2:
+        raise ExtractError("vm.c: upvalue handlers not found")
+    c["envValidBeforeDeref"] = all(re.search(r"vm_assert\(janet_env_valid\(env\)[^;]*;\s*if \(env->offset > 0\)", u, re.S) is not None for u in up)
+    return c
+
+
+def render_image_checks(tree):
+    c = image_checks(tree)
+    o = [csrc.lean_header("src/core/marsh.c (unmarshal_one_fiber / _def / _env, function case), src/core/vm.c (upvalue handlers)"),
+         "import JanetModel.Unmarsh.Image\n", "namespace JanetModel.Gen.ImageChecks\nopen JanetModel.Unmarsh\n",
+         "/-- which image validations the current source performs -/", "def checks : Checks := {"]
+    o.append(",\n".join("  %s := %s" % (k, str(v).lower()) for k, v in c.items()))
+    o.append("}\n\nend JanetModel.Gen.ImageChecks\n")
+    return "\n".join(o)
